@@ -235,13 +235,13 @@ impl Lexer {
             let m = match res {
                 Some(m) => m,
                 None => {
-                    return Err(self.throw(pos + 1));
+                    return Err(self.throw(pos));
                 }
             };
 
             let (tok_type, match_end) = match TokType::from_caps(&caps) {
                 Some(result) => result,
-                _ => return Err(self.throw(pos + 1)),
+                _ => return Err(self.throw(pos)),
             };
             let tok_val = &s[..m.end()];
 
